@@ -170,6 +170,8 @@ struct GenOpts {
     bool exact_segments = false;   ///< sdsl-backed variants: about 1 case in 10 (size hint >= 40): G groups of 2*eps+2.. consecutive keys separated by jumps no
                                    ///< segment can bridge, so the index has exactly G bottom segments; G sits on the block boundaries of the succinct
                                    ///< structures (multiples of 64 and 4096, powers of two, +-3)
+    bool far_tail = false;         ///< floating keys (PGMIndex checks): 1 array in 8 has its tail (from a positive key on) multiplied by 2^20..2^90: keys
+                                   ///< whose distance from the preceding ones is astronomically larger than the local spacing (offsets beyond 2^63)
     bool allow_giant = false;      ///< about 1 case in 400: n around / above 2^24 built from <= 300 distinct keys with huge duplicate runs (ranks > 2^24)
     size_t span_multiple_edge = 0; ///< Bucketing: 1/4 of the arrays end so that (last - first) is m*M + d, d in {-1,0,+1}, M = this value
     bool pow2_span_edge = false; ///< Elias-Fano: 1/4 of the arrays end so that (last segment key - first key) is 2^k-3 .. 2^k (universe-size edge)
@@ -918,6 +920,17 @@ std::vector<K> gen_keys(TapeReader &t, const GenOpts &o, KeyMeta &meta) {
 
     std::vector<K> keys(n);
     for (size_t i = 0; i < n; ++i) keys[i] = lat.to_key(m[i]);
+    if constexpr (std::is_floating_point_v<K>) {
+        if (o.far_tail && !o.xkeys && n >= 2 && t.chance(1, 8)) {
+            size_t i = 1 + t.below(n - 1);
+            int k = 20 + (int) t.below(std::is_same_v<K, float> ? 41 : 71);
+            while (i < n && (keys[i] <= 0 || keys[i] == keys[i - 1])) ++i;
+            if (i < n) {
+                for (size_t j = i; j < n; ++j) keys[j] = std::ldexp(keys[j], k); // exact: a power-of-two factor, far from overflow
+                rec << " FARTAIL(from #" << i << ", x2^" << k << ")";
+            }
+        }
+    }
 
     if (o.xkeys) { // explicit case from a replay file: the recipe above only kept the tape in step
         keys = keys_from_text<K>(*o.xkeys);
